@@ -1497,11 +1497,12 @@ impl<'arena> PrettyFormatter<'arena> {
         let source = self.source?;
         let (outer_start, _) = self.spans[&EntityId::Term(term)].get_cursor1();
         let (inner_start, inner_end) = self.spans[&EntityId::Term(inner)].get_cursor1();
-        let annotation_end = source
-            .get(outer_start..inner_start)?
-            .rfind(']')?
-            .checked_add(outer_start)?
-            .checked_add(1)?;
+        // The annotation ends at its last `]` *token*: a `]` written in a comment between
+        // the annotation and the payload belongs to the copied boundary text.
+        let annotation_end = crate::textual::Lexer::new(source.get(outer_start..inner_start)?)
+            .filter(|(_, token, _)| matches!(token, crate::textual::Tok::BracketClose))
+            .last()
+            .and_then(|(_, _, end)| end.checked_add(outer_start))?;
         let boundary = source.get(annotation_end..inner_start)?;
         let payload = source.get(inner_start..inner_end)?;
         Some(
